@@ -71,7 +71,7 @@ func main() {
 		os.Exit(2)
 	}
 	start := time.Now()
-	P, err := loadProg(*repo)
+	P, err := loadProg(*repo, "")
 	if err != nil {
 		// The tree does not load or type-check: no verdict can be given for it.
 		fmt.Printf("CHECKER-ERROR %v\n", err)
@@ -87,6 +87,41 @@ func main() {
 		}()
 		f(R)
 	}()
+	if *tier == "thorough" {
+		// the same rules under the other operating systems' build configurations (different filepath / syscall
+		// surface, other build-constrained files): only obligations that differ from the primary run are added
+		have := map[string]string{}
+		for _, o := range R.Obls {
+			have[o.key()] = o.Status
+		}
+		for _, goos := range []string{"windows", "darwin"} {
+			P2, err := loadProg(*repo, goos)
+			if err != nil {
+				R.und("build-config", "GOOS="+goos, "-", "the tree does not load under GOOS="+goos+": "+err.Error())
+				continue
+			}
+			R2 := &Run{P: P2, Prop: *prop, Tier: *tier, floors: map[string]int{}, rules: map[string]string{}, start: start, fnsSeen: map[string]bool{}}
+			func() {
+				defer func() {
+					if r := recover(); r != nil {
+						R2.und("checker-panic", fmt.Sprint(r), "-", "a rule panicked under GOOS="+goos)
+					}
+				}()
+				f(R2)
+			}()
+			differ := 0
+			for _, o := range R2.Obls {
+				if st, ok := have[o.key()]; !ok || st != o.Status {
+					if o.Status != "discharged" {
+						o.Construct = "[GOOS=" + goos + "] " + o.Construct
+						R.Obls = append(R.Obls, o)
+						differ++
+					}
+				}
+			}
+			R.note(fmt.Sprintf("GOOS=%s: %d obligations evaluated, %d differing from the primary configuration.", goos, len(R2.Obls), differ))
+		}
+	}
 	if *out == "" {
 		*out = *verif + "/evidence"
 	}
